@@ -57,6 +57,13 @@ def make_cases(tier, root, chk=None):
     import c09
     w2c2 = mclib.w2c2_binary()
     mods = {name: (m.encode(), m) for name, m, calls, imports in c09.base_modules()}
+    # BT: every function decodes a small br_table of its own (decoder state that must not be shared between the writer threads)
+    from wasmenc import Module, local_get, block, br_table, i32_const, END, RETURN
+    bt = Module()
+    for k in range(3):
+        body = block(None) + block(None) + block(None) + local_get(0) + br_table([(k + j) % 3 for j in range(3 + k)], k % 3) + END + i32_const(10 + k) + RETURN + END + i32_const(20 + k) + RETURN + END + i32_const(30 + k)
+        bt.add_func('i', 'i', (), body, export='t%d' % k)
+    mods['BT'] = (bt.encode(), bt)
     cases = []
 
     def add(modname, opts, pb, db, ref=None, rnd=0):
@@ -115,6 +122,7 @@ def make_cases(tier, root, chk=None):
     both('B2', ['-f', '1', '-t', '2'], 0, 1, (0, 1))                      # + one spurious wake-up
     both('B2', ['-f', '2', '-t', '3'], 0, 0, (0, 0))                      # 2 files, 3 workers (more workers than tasks)
     both('B1', ['-f', '3', '-t', '2', '-g'], 1, 0, (0, 0), ref='one-body-changed')   # static + dynamic files: the pool is started twice
+    both('BT', ['-f', '1', '-t', '2'], 1, 0, (1, 0))                      # three files, each function with its own br_table
     if tier != 'quick':
         both('B2', ['-f', '1', '-t', '2'], 3, 0, (2, 0), rnd=1)
         both('B2', ['-f', '1', '-t', '2'], 1, 1, (1, 1), rnd=1)
